@@ -26,6 +26,7 @@ LEVEL = {"C10": "fault_enumeration", "C11": "exploration", "C14": "exploration"}
 # Sizes follow the measured throughput of this sandbox: a run is one fork of a ~180 MB primed interpreter and
 # fork/exit/page-fault work does not scale across cores here (measured: 120 histories take 38 s with 1, 2, 3, 4
 # or 6 workers while CPU use grows linearly), so the batch sizes, not the worker count, set the wall time.
+CONFORM = {"quick": {"helper": 6, "api": 6, "daemon": 8}, "thorough": {"helper": None, "api": 80, "daemon": 80}}
 TIERS = {
     "quick": {"hash_seeds": 4, "C10": {"random": 120, "sweep_n": (0,), "typing_all": False},
               "C11": {"runs": 140}, "C14": {"runs": 260}, "budget_s": 300},
@@ -182,6 +183,9 @@ class Check:
                 continue
             violations.append((s, r, v))
         det = self.determinism_sample(executed)
+        self.conf = self.conformance(executed)
+        for m in self.conf.get("mismatch_details", []):
+            harness.append(({"label": "stub-vs-real " + m.get("part", "")}, "the simulator's stub disagrees with the real process: %r" % (m,)))
         out = self.report(specs, executed, violations, harness, det)
         self.oneshot.close()
         return out
@@ -206,6 +210,48 @@ class Check:
             finally:
                 z.close()
         return {"compared": count, "equal": count - len(bad), "mismatches": bad[:5]}
+
+    def conformance(self, executed):
+        """stub versus real processes (sim/conform.py); sizes per tier, VERIF_CONFORMANCE=0 switches it off"""
+        if os.environ.get("VERIF_CONFORMANCE", "1") == "0":
+            return {"ran": False, "why": "VERIF_CONFORMANCE=0"}
+        from . import conform
+        from .zpool import SHARE
+        n = CONFORM[self.tier]
+        t0 = time.monotonic()
+        c = conform.Conformance(REPO_SRC)
+        try:
+            if self.prop in ("C10", "C11"):
+                c.helpers(list(SHARE.items), n["helper"])
+                keys = sorted(k for k in self.refs.cache if k.startswith("api:") and k in self.refs.specs)
+                pairs = []
+                for k in keys:
+                    ref = self.refs.cache[k]
+                    res = ref.get("result")
+                    if not isinstance(res, dict) or "__outcome__" in res:
+                        continue
+                    desc = res.get("error", {}).get("description", "") if isinstance(res.get("error"), dict) else ""
+                    if "recursion" in desc.lower():
+                        continue  # depends on the caller's stack depth (risk B2)
+                    req = self.refs.specs[k]["ops"][0]
+                    pairs.append((req, res, None, bool(ref.get("helpers"))))
+                pairs = pairs[:: max(1, len(pairs) // n["api"])][: n["api"]]
+                seeds = [None, 0] + [h for h in self.hash_seeds if h]
+                pairs = [(a, b, seeds[i % len(seeds)], d) for i, (a, b, _, d) in enumerate(pairs)]
+                c.api(pairs)
+            if self.prop == "C14":
+                el = [(s, r) for s, r in executed if conform.daemon_session_eligible(s, r)]
+                el = el[:: max(1, len(el) // n["daemon"])][: n["daemon"]]
+                c.daemon(el)
+        finally:
+            c.close()
+        rep = dict(c.report)
+        out = {"ran": True, "wall_s": round(time.monotonic() - t0, 1), "mismatch_details": c.mismatches()}
+        for part, r in rep.items():
+            out[part] = {k: v for k, v in r.items() if k != "mismatches"}
+            out[part]["mismatches"] = len(r["mismatches"])
+        log("[%s] stub-vs-real conformance: %s (%.0f s)" % (self.prop, {p: "%d/%d" % (v["equal"], v["compared"]) for p, v in rep.items() if v["compared"]}, out["wall_s"]))
+        return out
 
     # -- reporting -------------------------------------------------------------------------------
     def report(self, specs, executed, violations, harness, det):
@@ -338,6 +384,7 @@ class Check:
             "references_computed": self.refs.computed,
             "zygote_boots": self.farm.zygote_boots,
             "determinism_sample": det,
+            "stub_validation": getattr(self, "conf", {"ran": False}),
             "components": COMPONENTS,
             "tree": tree_digest(),
             "harness_errors": [str(m)[:300] for _, m in harness[:5]],
@@ -438,7 +485,7 @@ RULES = {
 }
 EXPECTED_PROBES = {
     "C10": ["helper-timeout", "helper-killed", "helper-intrinsic-never-ends", "helper-intrinsic-blocked-on-stdin", "spawn_fail",
-            "crash", "nonzero", "garbage_out", "stderr_noise", "slow", "stall"],
+            "crash", "nonzero", "garbage_out", "stderr_noise", "slow", "stall", "orphan"],
     "C11": ["helper-script-run", "helper-timeout"],
     "C14": ["eof-mid-line", "short_write", "helper-timeout"],
 }
